@@ -15,16 +15,15 @@
   performs (remove obsolete deepest first, remove changed, mkdir -p + symlink), run on that map
   with the error behaviour of unlink / rmdir / makedirs / symlink.
 
-  The model contains the PROPOSED REPAIRS of six defects of the pinned tree (see
-  proposed/F-16b-view.md, F-16c-view.md, F-17a.md, F-17b.md, F-17c.md, F-17d.md); outside these classes it is
-  the code as it stands:
-    F-16b  auto paths are checked for uniqueness            (`pathsUnique` also for `.auto`)
+  The model is the code as it stands after the fix commits for the six defects this check found
+  (proposed/F-16b-view.md, F-16c-view.md, F-17a.md … F-17d.md describe them):
+    F-16b  auto paths are checked for uniqueness            (`pathStrings`, branch `.auto`)
     F-16c  leaf/node check independent of the order          (`structureValid` is two-pass)
     F-17a  existing paths are normalised ("./job" = "job")   (`findAllLinks` yields view paths)
     F-17b  an empty selection links nothing                  (no "./job" fallback)
     F-17c  a path that changes kind (link <-> directory) is replaced
            (`stale` links are removed, changed entries are removed with unlink-or-rmdir)
-    F-17d  a link path that is absolute or contains ".." is refused (RuntimeError)
+    F-17d  a link path that is absolute or contains ".." is refused (`escapes`, RuntimeError)
 -/
 import Signac.Json
 import Signac.PyVal
@@ -403,7 +402,7 @@ def properPrefixes : Path → List Path
   | [_] => []
   | c :: d :: rest => [c] :: (properPrefixes (d :: rest)).map (c :: ·)
 
-/-- `_check_directory_structure_validity` (two-pass = order independent, F-16c repaired):
+/-- `_check_directory_structure_validity` (two-pass = order independent since the F-16c fix):
     no path equals a proper prefix of a path -/
 def structureValid (paths : List Path) : Bool :=
   let check := paths.flatMap properPrefixes
@@ -429,7 +428,7 @@ mutual
 end
 
 /-- `path_function(job)` for every selected job, with the uniqueness check of
-    `_make_path_function` (for automatic paths: the F-16b repair).  Outer `none` = outside the
+    `_make_path_function` (for automatic paths too, since the F-16b fix).  Outer `none` = outside the
     modelled fragment. -/
 def pathStrings (jobs : List Job) (spec : PathSpec) : Option (Except Reject (List String)) :=
   match spec with
@@ -450,7 +449,7 @@ def pathStrings (jobs : List Job) (spec : PathSpec) : Option (Except Reject (Lis
 /-- `os.path.join(path_function(job), "job")`, split at the separator -/
 def linkKey (p : String) : Path := splitSep (osJoin2 p leaf)
 
-/-- absolute, or with a ".." component (F-17d repair: refused) -/
+/-- absolute, or with a ".." component (refused since the F-17d fix) -/
 def escapes (k : Path) : Bool := k.contains ".." || k.head? == some ""
 
 /-- the `links` dictionary of `create_linked_view`:  raw '/'-split link path ↦ job id -/
@@ -575,7 +574,7 @@ def isLinkAt (v : View) (p : Path) : Bool :=
 
 structure Plan where
   obsolete : List Path   -- dead branches, deepest first
-  stale : List Path      -- existing links that must give way to a directory (F-17c repair)
+  stale : List Path      -- existing links that must give way to a directory (F-17c fix)
   toUpdate : List Path   -- existing paths that stay but are not the right link
   fresh : List Path      -- link paths that do not exist yet
 
